@@ -79,23 +79,24 @@ def plan(quick):
         p.append(("num-disk-clear-rem2", ["P3", "Cfirstun"], NUM, "fresh", "REM2", {"disk": True, "clear": True}))
         p.append(("num-disk-clear-copy", ["Cstar", "Cunord"], NUM, "fresh", "COPY2", {"disk": True, "clear": True}))
     else:
-        p.append(("num-fresh-full2", GEOMS_F2, NUM, "fresh", "FULL2", {}))
-        p.append(("all-fresh-full+lite", GEOMS_6, ALL, "fresh", "FULL+LITE", {}))
-        p.append(("noval-fresh-full+lite", GEOMS_CORE, NOVAL, "fresh", "FULL+LITE", {}))
-        p.append(("rev-fresh-full+lite", ["P3", "Cfirstun", "S2first"], REV, "fresh", "FULL+LITE", {}))
-        p.append(("num-cold-full+lite", GEOMS_CORE, NUM, "cold", "FULL+LITE", {}))
-        p.append(("num-fresh-lite3", ["P3", "Cfirstun", "Cstar"], NUM, "fresh", "LITE3", {}))
-        p.append(("num-warm-lite3", ["P3", "Cfirstun"], NUM, "warm", "LITE3", {}))
-        p.append(("num-fresh-rem3", GEOMS_ALL, NUM, "fresh", "REM3L", {}))
-        p.append(("num-cold-remc3", ["P3", "Cfirstun", "Cstar"], NUM, "cold", "REMC3", {}))
+        p.append(("num-fresh-full2", GEOMS_6, NUM, "fresh", "FULL2", {}))
+        p.append(("all-fresh-full+lite", ["P3", "Cfirstun", "S2first"], ALL, "fresh", "FULL+LITE", {}))
+        p.append(("noval-fresh-full+lite", ["P3", "Cfirstun"], NOVAL, "fresh", "FULL+LITE", {}))
+        p.append(("rev-fresh-full+lite", ["P3", "Cfirstun"], REV, "fresh", "FULL+LITE", {}))
+        p.append(("num-cold-full+lite", ["P3", "Cfirstun", "Cstar"], NUM, "cold", "FULL+LITE", {}))
+        p.append(("num-fresh-lite3", ["P3", "Cfirstun"], NUM, "fresh", "LITE3", {}))
+        p.append(("num-warm-lite3", ["P3"], NUM, "warm", "LITE3", {}))
+        p.append(("num-warm-rem3", ["Cfirstun"], NUM, "warm", "REM3L", {}))
+        p.append(("num-fresh-rem3", GEOMS_8, NUM, "fresh", "REM3L", {}))
+        p.append(("num-cold-remc3", ["P3", "Cfirstun"], NUM, "cold", "REMC3", {}))
         for s in subsets_of_kinds():
             if s in (NUM, ALL):
                 continue
             p.append(("subset-" + "+".join(s), GEOMS_CORE, s, "fresh", "LITE1", {}))
         p.append(("num-disk-clear-rem3", ["P3", "Cfirstun", "S2first"], NUM, "fresh", "REM3", {"disk": True, "clear": True}))
         p.append(("all-disk-clear-lite2", ["P3", "Cfirstun"], ALL, "fresh", "LITE2", {"disk": True, "clear": True}))
-        p.append(("num-disk-clear-lite2", ["Cstar", "Cmidun", "Cunord", "Cparts", "S2bow"], NUM, "fresh", "LITE2", {"disk": True, "clear": True}))
-        p.append(("num-disk-cold-lite2", ["Cstar", "S2first"], NUM, "cold", "LITE2", {"disk": True}))
+        p.append(("num-disk-clear-lite2", ["Cstar", "Cmidun", "S2bow"], NUM, "fresh", "LITE2", {"disk": True, "clear": True}))
+        p.append(("num-disk-cold-lite2", ["Cstar"], NUM, "cold", "LITE2", {"disk": True}))
     return p
 
 
@@ -164,7 +165,7 @@ def run(ctx):
         if core.jdump(a) != core.jdump(b):
             raise core.HarnessError(f"forked and plain execution disagree on {h}:\n{core.jdump(a)[:600]}\n{core.jdump(b)[:600]}")
     # merged exploration must give the verdicts and outcomes of the unmerged one
-    xseeds = [dict(s, alpha="REM3" if not ctx.quick else "REM2") for s in seeds_of(("x", ["Cfirstun"], NUM, "fresh", "", {}), caps)]
+    xseeds = [dict(s, alpha="REM2") for s in seeds_of(("x", ["Cfirstun"], NUM, "fresh", "", {}), caps)]
     res = []
     for merge in (True, False):
         sc = _Scratch(ctx)
